@@ -142,6 +142,110 @@ def main(x):
 '''
 
 
+MIDRUN_SRC = '''
+from tawazi import xn, dag
+import twzmc.harness as H
+import twzmc.ir as IRL
+
+LATE = []
+
+@xn
+def inc(*a, **k):
+    return H.lib_call("inc", IRL.LIB["inc"], a, k)
+
+def _arm(ctx, on):
+    # an upstream node switches the (mutable) objects that later nodes use as flags
+    ctx["ready"] = on
+    LATE[:] = [1] if on else []
+    return 3
+
+@xn
+def arm(*a, **k):
+    return H.lib_call("arm", _arm, a, k)
+
+@dag
+def inner(a):
+    return inc(a)
+
+@dag
+def main(ctx, on):
+    a = arm(ctx, on)
+    r = inc(a, twz_active=ctx["ready"])
+    s = inc(a, twz_active=LATE)
+    t = inner(a, twz_active=ctx["ready"])
+    return r, s, t
+'''
+
+
+def midrun_case(acc, c):
+    """the flag is looked at when the flagged node is picked, i.e. after its dependencies ran: a mutable DAG argument / constant
+    switched by an upstream dependency during the run"""
+    from ..build import exec_source
+    acc.cases += 1
+    ns = exec_source(MIDRUN_SRC)
+    d = ns["main"]
+    for start, on, want in ((False, True, (4, 4, 4)), (True, False, (None, None, None)), (False, False, (None, None, None)), (True, True, (4, 4, 4))):
+        ns["LATE"][:] = [1] if start else []
+        res = H.run_controlled(lambda: d({"ready": start}, on))
+        acc.evaluations += 1
+        acc.mark_nontrivial(("midrun", start, on))
+        if res.outcome != "return" or res.value != want:
+            acc.violation(V("flag_not_read_at_run_time", f"flag objects {'truthy' if start else 'falsy'} at the call and switched {'on' if on else 'off'} by a dependency of the flagged nodes: "
+                            f"DAG returned {res.value!r} ({res.outcome} {res.exc!r}), expected {want!r}", start=start, on=on), dict(c, start=start, on=on), (), res.trace, MIDRUN_SRC)
+
+
+COMPOSED_SRC = '''
+from tawazi import xn, dag
+import twzmc.harness as H
+import twzmc.ir as IRL
+
+@xn
+def inc(*a, **k):
+    return H.lib_call("inc", IRL.LIB["inc"], a, k)
+
+@xn
+def ident(*a, **k):
+    return H.lib_call("ident", IRL.LIB["ident"], a, k)
+
+@xn
+def mkd(*a, **k):
+    return H.lib_call("mkd", IRL.LIB["mkd"], a, k)
+
+@dag
+def main(x, y, z):
+    a = ident(x)
+    b = ident(y)
+    c = mkd(z)
+    r = inc(b, twz_active=a)          # flag = FIRST input of the composed DAG
+    s = inc(a, twz_active=b)          # flag = middle input
+    t = inc(a, twz_active=c["k"])     # flag = indexed part of the last input
+    u = inc(b, twz_active=c["l"][0])
+    return r, s, t, u
+
+comp = main.compose("comp", ["ident", "ident<<1>>", "mkd"], ["inc", "inc<<1>>", "inc<<2>>", "inc<<3>>"])
+comp_rev = main.compose("comp_rev", ["mkd", "ident<<1>>", "ident"], ["inc", "inc<<1>>", "inc<<2>>", "inc<<3>>"])
+'''
+
+
+def composed_case(acc, c):
+    """flags produced by nodes that became the INPUTS of a DAG derived with compose(): each flagged node follows its own input"""
+    import itertools
+    from ..build import exec_source
+    acc.cases += 1
+    ns = exec_source(COMPOSED_SRC)
+    for name, order in (("comp", "abc"), ("comp_rev", "cba")):
+        d = ns[name]
+        for fa, fb, fk, fl in itertools.product((0, 3), (0, 3), (0, 5), (0, 7)):
+            vals = {"a": fa, "b": fb, "c": {"k": fk, "l": [fl, 1]}}
+            want = (fb + 1 if fa else None, fa + 1 if fb else None, fa + 1 if fk else None, fb + 1 if fl else None)
+            res = H.run_controlled(lambda: d(*[vals[o] for o in order]))
+            acc.evaluations += 1
+            acc.mark_nontrivial(("composed", name, fa, fb, fk, fl))
+            if res.outcome != "return" or res.value != want:
+                acc.violation(V("composed_flag", f"{name}(inputs {vals}): returned {res.value!r} ({res.outcome} {res.exc!r}), expected {want!r}", dag=name),
+                              dict(c, dag=name, vals=repr(vals)), (), res.trace, COMPOSED_SRC)
+
+
 CONST_RETURN_SRC = '''
 from tawazi import xn, dag
 import twzmc.harness as H
@@ -204,6 +308,8 @@ def stateful_case(acc, c):
 def cases(tier: str):
     yield dict(flag="stateful_constant", carrier="special", prog=None, expect_build_error=None, special="stateful")
     yield dict(flag="param", carrier="sub_const_return", prog=None, expect_build_error=None, special="const_return")
+    yield dict(flag="mutable_param_and_constant", carrier="special", prog=None, expect_build_error=None, special="midrun")
+    yield dict(flag="inputs_of_composed_dag", carrier="special", prog=None, expect_build_error=None, special="composed")
     for name, body, rspec, subs in inner_flag_programs():
         prog = {"name": "main", "params": [["x", NODEFAULT], ["y", 4]], "body": body, "ret": rspec, "subs": subs}
         yield dict(flag="inside_nested", carrier=name, prog=prog, expect_build_error=None)
@@ -224,6 +330,10 @@ def run_one(acc, c):
         return stateful_case(acc, c)
     if c.get("special") == "const_return":
         return const_return_case(acc, c)
+    if c.get("special") == "midrun":
+        return midrun_case(acc, c)
+    if c.get("special") == "composed":
+        return composed_case(acc, c)
     prog = c["prog"]
     case = {"prog": prog, "flag": c["flag"], "carrier": c["carrier"]}
     if c["expect_build_error"]:
